@@ -535,3 +535,203 @@ vharness! {
     #[cfg_attr(kani, kani::unwind(8))]
     fn path_backtrack_bounded_sss() { backtrack_case([0, 0, 0], true, 2) }
 }
+
+// ------------------------------------------------------------ C19: exploring flag, capacity
+
+fn simple_seed() -> [Thread; 3] {
+    [Thread::Active, Thread::Skip, Thread::Disabled]
+}
+
+fn create(path: &mut Path, kind: u8) {
+    match kind {
+        0 => {
+            path.branch_thread(eid(), simple_seed().into_iter());
+        }
+        1 => {
+            path.push_load(&[0, 1]);
+            path.branch_load();
+        }
+        _ => {
+            path.branch_spurious();
+        }
+    }
+}
+
+/// Symbolic control calls (none / explore / stop_exploring / skip_branch)
+/// before each of three branch points of the given kinds.
+fn flags_case(kinds: [u8; 3]) {
+    let on_start: bool = kani::any();
+    let mut path = Path::new(3, None, on_start);
+    // reference: the two documented flags
+    let mut exploring = on_start;
+    let mut skipping = false;
+    let mut i = 0;
+    while i < 3 {
+        let ctl: u8 = kani::any();
+        kani::assume(ctl <= 3);
+        match ctl {
+            1 => {
+                // explore(): only meaningful inside a stop_exploring region
+                kani::assume(skipping || !exploring);
+                path.explore_state();
+                if !skipping {
+                    exploring = true;
+                }
+            }
+            2 => {
+                kani::assume(skipping || exploring);
+                path.critical();
+                if !skipping {
+                    exploring = false;
+                }
+            }
+            3 => {
+                path.skip_branch();
+                exploring = false;
+                skipping = true;
+            }
+            _ => {}
+        }
+        create(&mut path, kinds[i]);
+        // every decision records whether alternatives may be explored for it
+        assert!(snap(&path, i).exploring == exploring);
+        assert!(path.pos == i + 1);
+        if ctl == 3 {
+            kani::cover!(i == 0, "skip_branch before the first decision");
+        }
+        i += 1;
+    }
+    assert!(path.branches.len() == 3);
+    kani::cover!(skipping && on_start, "skip_branch called while exploring");
+    kani::cover!(!skipping && exploring && !on_start, "explore() switched exploration on");
+    std::mem::forget(path);
+}
+
+vharness! {
+    /// @prop C19 @tier quick @mode fast @cost 2 @funcs Path::explore_state,Path::critical,Path::skip_branch,Path::branch_thread,Path::push_load,Path::branch_load,Path::branch_spurious @bounds 3 decisions of kinds [schedule,load,spurious] at capacity 3, a symbolic control call (none/explore/stop_exploring/skip_branch) before each
+    /// every decision of every kind records the exploration flag current at its creation; after skip_branch nothing is exploring and explore() cannot re-enable it.
+    #[cfg_attr(kani, kani::unwind(8))]
+    fn path_flags_slp() { flags_case([0, 1, 2]) }
+}
+
+vharness! {
+    /// @prop C19 @tier quick @mode fast @cost 2 @funcs Path::explore_state,Path::critical,Path::skip_branch,Path::push_load,Path::branch_spurious,Path::branch_thread @bounds 3 decisions of kinds [load,spurious,schedule]
+    /// exploration flag recorded per decision, load first.
+    #[cfg_attr(kani, kani::unwind(8))]
+    fn path_flags_lps() { flags_case([1, 2, 0]) }
+}
+
+fn capacity_case(kind: u8) {
+    let mut path = Path::new(2, None, true);
+    create(&mut path, 0);
+    create(&mut path, 1);
+    // the stack is full: one more decision must be refused
+    create(&mut path, kind);
+    assert!(false, "VERIF_MARKER: a decision was recorded beyond max_branches");
+}
+
+vharness! {
+    /// @prop C19,C18 @tier quick @mode fast @funcs Path::branch_thread @must_fail "Model exceeded maximum number of branches" @bounds max_branches = 2, third decision a schedule point
+    /// exceeding max_branches at a scheduling point panics with the documented message (exactly at the limit: the first two decisions are accepted).
+    #[cfg_attr(kani, kani::unwind(8))]
+    fn path_capacity_schedule() { capacity_case(0) }
+}
+
+vharness! {
+    /// @prop C19,C18 @tier quick @mode fast @funcs Path::push_load @must_fail "Model exceeded maximum number of branches" @bounds max_branches = 2, third decision an atomic load
+    /// exceeding max_branches at an atomic load panics with the documented message.
+    #[cfg_attr(kani, kani::unwind(8))]
+    fn path_capacity_load() { capacity_case(1) }
+}
+
+vharness! {
+    /// @prop C19 @tier quick @mode fast @funcs Path::branch_spurious @must_fail "Model exceeded maximum number of branches" @bounds max_branches = 2, third decision a spurious-wakeup point
+    /// exceeding max_branches at a spurious-wakeup point panics with the documented message.
+    #[cfg_attr(kani, kani::unwind(8))]
+    fn path_capacity_spurious() { capacity_case(2) }
+}
+
+// ------------------------------------------------------------ C15: preemption accounting
+
+fn any_seed() -> ([Thread; 3], u8) {
+    let mut s = [Thread::Disabled; 3];
+    let mut act = NONE;
+    let mut n = 0;
+    let mut k = 0;
+    while k < 3 {
+        let c: u8 = kani::any();
+        kani::assume(c <= 2 || c == 4); // Disabled, Skip, Yield, Active -- what schedule() produces
+        if c == 4 {
+            n += 1;
+            act = k as u8;
+        }
+        s[k] = t_from(c);
+        k += 1;
+    }
+    kani::assume(n == 1);
+    (s, act)
+}
+
+fn choice(path: &Path, i: usize) -> u8 {
+    active_of(&snap(path, i))
+}
+
+vharness! {
+    /// @prop C15 @tier quick @mode fast @cost 3 @timeout 3600 @funcs Path::branch_thread,Path::backtrack,Path::step,Schedule::preemptions,Schedule::backtrack @bounds 2 schedule points with symbolic seeds over 3 threads, 2 symbolic backtrack requests, one DFS step, replay, a third schedule point; preemption bound 0..2 symbolic
+    /// the preemption count a schedule point inherits equals an independent count (decisions below it where the thread that could have continued was switched away from) and never exceeds the bound, also when the new point itself is a forced switch.
+    #[cfg_attr(kani, kani::unwind(8))]
+    fn path_preemption_count() {
+        let b: u8 = kani::any();
+        kani::assume(b <= 2);
+        let mut path = Path::new(4, Some(b), true);
+        let (s0, d0) = any_seed();
+        let (s1, d1) = any_seed();
+        let c0 = path.branch_thread(eid(), s0.into_iter());
+        assert!(c0.map(|t| t.as_usize() as u8) == Some(d0));
+        let c1 = path.branch_thread(eid(), s1.into_iter());
+        assert!(c1.map(|t| t.as_usize() as u8) == Some(d1));
+        assert!(snap(&path, 0).preemptions == 0 && snap(&path, 1).preemptions == 0);
+        let could_continue_1 = d1 == d0;
+        // DPOR asks for alternatives
+        let t: usize = kani::any();
+        kani::assume(t < 3);
+        path.backtrack(1, tid(t));
+        let t2: usize = kani::any();
+        kani::assume(t2 < 3);
+        path.backtrack(0, tid(t2));
+        if !path.step() {
+            std::mem::forget(path);
+            return;
+        }
+        let len = path.branches.len();
+        // replay of the retained prefix returns the stored decisions
+        let r0 = path.branch_thread(eid(), simple_seed().into_iter());
+        assert!(r0.map(|t| t.as_usize() as u8) == Some(choice(&path, 0)));
+        let mut count: u8 = 0;
+        if choice(&path, 0) != d0 {
+            count += 1; // the very first decision was switched away from its default
+        }
+        if len == 2 {
+            let r1 = path.branch_thread(eid(), simple_seed().into_iter());
+            assert!(r1.map(|t| t.as_usize() as u8) == Some(choice(&path, 1)));
+            // DFS advanced the top entry only
+            assert!(choice(&path, 0) == d0);
+            if could_continue_1 && choice(&path, 1) != d1 {
+                count += 1;
+            }
+        }
+        assert!(count <= b);
+        // a new scheduling point, possibly a forced switch
+        let (s2, _d2) = any_seed();
+        path.branch_thread(eid(), s2.into_iter());
+        let top = snap(&path, len);
+        assert!(top.kind == 0);
+        assert!(top.preemptions == count);
+        assert!(top.preemptions <= b);
+        kani::cover!(len == 2 && count == 1, "preemption at the second point");
+        kani::cover!(len == 1 && count == 1, "preemption at the first point");
+        kani::cover!(count == 1 && _d2 != choice(&path, len - 1), "new point is a forced switch after a preemption");
+        kani::cover!(count == 0 && len == 2, "advance without preemption (previous thread could not continue)");
+        std::mem::forget(path);
+    }
+}
